@@ -8,7 +8,7 @@
    transformation() followed by conversion_surface_params(). *)
 From Coq Require Import List ZArith Bool Reals Lra.
 From T4V Require Import Base.Scalar C04.Vec C04.Model C04.Spec C04.ProofsFrame C04.ProofsConvert
-  C04.ProofsQuad C04.ProofsSurf C04.ProofsMatrix C04.ProofsCard C04.ProofsTorus C04.ProofsMatrix5 C04.ProofsCompose C04.ProofsComposeCex C04.ProofsAdjust C04.ProofsTree C04.ProofsInterface.
+  C04.ProofsQuad C04.ProofsSurf C04.ProofsMatrix C04.ProofsCard C04.ProofsTorus C04.ProofsMatrix5 C04.ProofsCompose C04.ProofsComposeCex C04.ProofsAdjust C04.ProofsTree C04.ProofsInterface C04.ProofsErrors.
 Import ListNotations.
 Open Scope R_scope.
 
@@ -165,6 +165,38 @@ Theorem C04_adjust_matrix_idempotent : forall (m : M3 R) (l : list R),
   adjust_matrix RS l = Ok l.
 Proof. exact adjust_matrix_idempotent. Qed.
 Print Assumptions C04_adjust_matrix_idempotent.
+
+(* trailing J placeholders may be left out *)
+Theorem C04_normalize_matrix_trailing_J : forall l : list (option R), (List.length l <= 9)%nat ->
+  normalize_matrix RS l = normalize_matrix RS (l ++ repeat None (9 - List.length l)).
+Proof. exact normalize_matrix_trailing. Qed.
+Print Assumptions C04_normalize_matrix_trailing_J.
+
+(* which Python exception for which malformed input (one audited bundle):
+   TransformationError for a number of matrix entries other than 0,3,5,6,9; StopIteration for
+   five entries without a complete row or column; TypeError for a J in the displacement;
+   ValueError / IndexError for a transformation list of the wrong length *)
+Theorem C04_error_branches :
+  (forall l : list (option R), (List.length l <= 9)%nat ->
+     let n := count_some (l ++ repeat None (9 - List.length l)) in
+     n <> 0%nat -> n <> 3%nat -> n <> 5%nat -> n <> 6%nat -> n <> 9%nat ->
+     normalize_matrix RS l = Err ETransformation) /\
+  (forall m : M3 (option R), count_some (mlist m) = 5%nat ->
+     first_idx (fun r => is_some (all_some r)) m = None \/
+     first_idx (fun r => is_some (all_some r)) (transpose m) = None ->
+     normalize_matrix RS (mlist m) = Err EStop) /\
+  (forall (b : M3 R) (o1 o2 o3 : option R), rows_orthonormal b -> clip_ok_m b ->
+     (o1 = None \/ o2 = None \/ o3 = None) ->
+     normalize_transform RS ([o1; o2; o3] ++ map Some (mlist b)) = Err EType) /\
+  (forall (tr : list R) (s : msurf R), frame_kind (mk s) = true -> tr <> [] -> List.length tr <> 12%nat ->
+     transformation RS tr s = Err EValue) /\
+  (forall (tr : list R) (s : msurf R), (mk s = KGQ \/ mk s = KSQ) -> tr <> [] -> (List.length tr < 12)%nat ->
+     transformation RS tr s = Err EIndex).
+Proof.
+  exact (conj normalize_matrix_bad_count (conj normalize_matrix_5_irregular
+          (conj normalize_transform_J_displacement (conj transformation_bad_length transformation_quadric_short)))).
+Qed.
+Print Assumptions C04_error_branches.
 
 (* ---------- cards ---------- *)
 Theorem C04_to_cos_deg : forall a : R, to_cos RS a = cos (a * PI / 180).
